@@ -68,3 +68,120 @@ def run(ctx, texts, unit='md.render', opts_list=None, as_lines=False, every_opt=
         kind = 'L=%s,nw=%s' % (case['kwargs'].get('max_line_length'), bool(case['kwargs'].get('normalize_whitespace')))
         ok = ctx.compare(unit, case, m, e, kind=kind) and ok
     return ok
+
+
+# ---------------------------------------------------------------------------------------------
+# the renderer as a function on trees: parsed trees with perturbed attributes (outside the parser's range)
+# ---------------------------------------------------------------------------------------------
+
+def _walk(tok):
+    yield tok
+    if 'header' in vars(tok):
+        yield from _walk(tok.header)
+    for c in (getattr(tok, 'children', None) or []):
+        yield from _walk(c)
+
+
+def perturb(rng, doc):
+    """Change attributes the renderer reads, in place (the tree stays well-kinded for the exporter)."""
+    from mistletoe import block_token, span_token
+    for tok in list(_walk(doc)):
+        if rng.random() > 0.5:
+            continue
+        name = type(tok).__name__
+        if name in ('Link', 'Image'):
+            tok.dest_type = rng.choice(['uri', 'angle_uri', 'full', 'collapsed', 'shortcut', None])
+            tok.label = rng.choice([None, 'lab el', 'x', ''])
+            tok.title = rng.choice(['', 'ti  tle', 't'])
+            tok.title_delimiter = rng.choice([None, '"', "'", '('])
+        elif name == 'LinkReferenceDefinition':
+            tok.dest_type = rng.choice(['uri', 'angle_uri'])
+            tok.title = rng.choice(['', 'ti  tle', 't'])
+            tok.title_delimiter = rng.choice([None, '"', "'", '('])
+        elif name == 'ListItem':
+            tok.leader = rng.choice(['-', '*', '1.', '12)', ''])
+            tok.prepend = rng.randint(0, 6)
+            tok.indentation = rng.randint(0, 4)
+            if rng.random() < 0.2:
+                tok.children = []
+        elif name == 'Table':
+            tok.column_align = [rng.choice([None, 0, 1]) for _ in range(rng.randint(0, 5))]
+            if rng.random() < 0.15:
+                del tok.header
+        elif name == 'CodeFence':
+            tok.indentation = rng.randint(0, 4)
+            tok.delimiter = rng.choice(['```', '~~~~', '`'])
+            tok.info_string = rng.choice(['', ' py', 'a b'])
+            if rng.random() < 0.3:
+                tok.children[0].content = rng.choice(['', 'x', 'x\n\ny', '\n', ' \n'])
+        elif name == 'BlockCode':
+            if rng.random() < 0.5:
+                tok.children[0].content = rng.choice(['', 'x', 'x\n\ny', '\n', ' \n', 'a\n  \nb\n'])
+        elif name == 'Heading':
+            tok.level = rng.randint(0, 7)
+            tok.closing_sequence = rng.choice(['', '#', '###'])
+            if rng.random() < 0.4 and tok.children:
+                lb = span_token.LineBreak.__new__(span_token.LineBreak)
+                lb.content, lb.soft = rng.choice([('', True), ('\\', False), ('  ', False)])
+                tok.children = list(tok.children) + [lb] + [span_token.RawText('tail')]
+        elif name == 'SetextHeading':
+            tok.underline = rng.choice(['=', '---', ''])
+        elif name == 'Quote':
+            if rng.random() < 0.3:
+                tok.children = []
+        elif name == 'ThematicBreak':
+            tok.line = rng.choice(['***', ' - - -', ''])
+        elif name == 'HtmlBlock':
+            tok.children[0].content = rng.choice(['<div>', '<a>\n\n</a>', ''])
+        elif name == 'InlineCode':
+            tok.delimiter = rng.choice(['`', '``'])
+            tok.padding = rng.choice(['', ' '])
+        elif name in ('Strong', 'Emphasis'):
+            tok.delimiter = rng.choice(['*', '_'])
+        elif name == 'RawText' and rng.random() < 0.05 and type(tok.parent).__name__ in ('Paragraph', 'Emphasis', 'Strong', 'Link'):
+            from mistletoe.latex_token import Math
+            m = Math.__new__(Math)
+            m.content = '$x$'
+            ch = list(tok.parent.children)
+            ch[[id(c) for c in ch].index(id(tok))] = m
+            tok.parent.children = ch
+
+
+def run_trees(ctx, texts, rng, unit='md.render.tree', opts_list=None):
+    """Parse each text with the real parser, perturb the tree, render the tree with the real renderer and
+    with the model (which receives the exported tree)."""
+    import export
+    from mistletoe import Document
+    from mistletoe.markdown_renderer import MarkdownRenderer
+    reqs, exp, meta = [], [], []
+    ol = opts_list or OPTS_LIST
+    for i, t in enumerate(texts):
+        kw = ol[i % len(ol)]
+        try:
+            with impl.time_limit(20):
+                with MarkdownRenderer(**kw) as r:
+                    doc = Document(t)
+                    perturb(rng, doc)
+                    try:
+                        tree = export.export_doc(doc, check_parent=False)
+                    except export.ShapeError:
+                        continue
+                    try:
+                        res = {'md': r.render(doc)}
+                    except impl.Timeout:
+                        raise
+                    except Exception as e:
+                        res = {'raises': True}
+        finally:
+            impl.reset_library()
+        reqs.append({'op': 'md.render', 'doc': tree, 'opts': model_opts(kw)})
+        exp.append(res)
+        meta.append({'tree': tree, 'kwargs': kw})
+    model = driver_batch(reqs)
+    ok = True
+    for case, e, m in zip(meta, exp, model):
+        if isinstance(m, dict) and 'raises' in m:
+            m = {'raises': True}
+        kind = ('raises' if 'raises' in e else 'ok')
+        ok = ctx.compare(unit, case, m, e, kind=kind) and ok
+    return ok
